@@ -226,7 +226,7 @@ def run_history(kit, kind, size, ar, hist, stats=None):
             res = ("ok", ident, text)
         obs = (tuple(calls), res)
         pred = []
-        for s in states:
+        for s in sorted(states):
             pred.extend(M.op_outcomes(s, cfg, active, names, worlds[active], new_ident))
         nxt = {s2 for l, r, s2 in pred if (l, r) == obs}
         if stats is not None:
